@@ -154,6 +154,26 @@ def run_case(case, exe, stubdir, workroot, R, keep=False):
                             break
                 else:
                     V.append(("not_self_contained:c:sizeof_unusable", p.stdout[:400]))
+        # 3c. a header is made to be included by every translation unit of a program that uses the library: two units that include it link
+        if not causes and len(outputs) == 1:
+            import subprocess
+            ext, cc, std = ("h", "gcc", "-std=c99") if lang == "c" else ("hpp", "g++", "-std=c++11")
+            for nm, body in (("tu_a", '#include "out0.%s"\nint tu_b_entry(void);\nint main(void) { return tu_b_entry(); }\n' % ext),
+                             ("tu_b", '#include "out0.%s"\nint tu_b_entry(void) { return 0; }\n' % ext)):
+                with open(os.path.join(wd, nm + (".c" if lang == "c" else ".cpp")), "w") as f:
+                    f.write(body)
+            srcs = ["tu_a.c", "tu_b.c"] if lang == "c" else ["tu_a.cpp", "tu_b.cpp"]
+            p = subprocess.run([cc, std, "-w", "-o", os.path.join(wd, "two_units")] + srcs, cwd=wd, stdout=subprocess.PIPE, stderr=subprocess.STDOUT, text=True)
+            if p.returncode != 0:
+                dup = [l for l in p.stdout.splitlines() if "multiple definition" in l or "duplicate symbol" in l]
+                sym = ""
+                if dup:
+                    import re as _re
+                    m = _re.search(r"multiple definition of [`'](\w+)", dup[0])
+                    sym = m.group(1) if m else "symbol"
+                    sym = _re.sub(r"\d+", "N", sym)
+                V.append(("not_self_contained:%s:two_units:%s" % (lang, sym or "compile"),
+                          "a program with two translation units that include the processed header does not build: " + (dup[0] if dup else p.stdout[:300])))
         # 4. foreign declarations
         lost = []
         for text in sorted(outputs):
